@@ -80,12 +80,25 @@ CORPUS_AUTOINIT = [
      [('long *', 'o', 3), ('int', 'v1'), ('int', 'v2')], 'void', ''),
     ('autoinit-array', 'f', 'void f(long *o, int v1, int v2, int v3) { int x[] = {v1, [3] = v2, v3}; short y[2][2] = {{v1}, v2, v3}; o[0] = x[0] + x[1] + x[2]; o[1] = x[3]; o[2] = x[4]; o[3] = sizeof x; o[4] = y[0][0] * 3 + y[0][1]; o[5] = y[1][0]; o[6] = y[1][1]; }',
      [('long *', 'o', 7), ('int', 'v1'), ('int', 'v2'), ('int', 'v3')], 'void', 'in_v1 > -10000 && in_v1 < 10000'),
-    ('autoinit-string', 'f', 'void f(long *o, int v1) { char s[8] = "ab"; struct { char t[4]; int n; } x = {.t = "wxyz", .n = v1}; struct { int k; char t[6]; } y = {v1, "hi"}; o[0] = s[0] + s[1] * 256 + s[2] + s[7]; o[1] = x.t[0]; o[2] = x.t[1]; o[3] = x.t[3]; o[4] = x.n; o[5] = y.t[1] + y.t[2] + y.t[5]; }',
-     [('long *', 'o', 6), ('int', 'v1')], 'void', ''),
+    ('autoinit-string', 'f', 'void f(long *o, int v1) { char s[8] = "ab"; struct { char t[4]; int n; } x = {.t = "wxyz", .n = v1}; o[0] = s[0] + s[1] * 256 + s[2] + s[7]; o[1] = x.t[0]; o[2] = x.t[1]; o[3] = x.t[3]; o[4] = x.n; }',
+     [('long *', 'o', 5), ('int', 'v1')], 'void', ''),
+    ('autoinit-string-member', 'f', 'void f(long *o, int v1) { struct { int k; char t[6]; } y = {v1, "hi"}; o[0] = y.k; o[1] = y.t[0] + y.t[1] * 256; o[2] = y.t[2] + y.t[5]; }',
+     [('long *', 'o', 3), ('int', 'v1')], 'void', ''),
     ('autoinit-string-override', 'f', 'void f(long *o, int v1) { struct { char t[4]; int n; } x = {.t = "wxyz", .t[1] = v1, .n = v1}; o[0] = x.t[0]; o[1] = x.t[1]; o[2] = x.t[2]; o[3] = x.t[3]; o[4] = x.n; }',
      [('long *', 'o', 5), ('int', 'v1')], 'void', ''),
     ('autoinit-structcopy', 'f', 'void f(long *o, struct t *p, int v1) { struct { struct t k; int z; } x = {*p, v1}; struct t y = {.s = p->s, .a = v1}; o[0] = x.k.a; o[1] = x.k.s.c[1]; o[2] = x.z; o[3] = y.a; o[4] = y.s.b; o[5] = y.d; o[6] = x.k.g; }',
      [('long *', 'o', 7), ('struct t *', 'p', 1), ('int', 'v1')], 'void', ''),
+]
+CALLSTRUCT_PRELUDE = 'struct p { int x; int z; long y; }; struct q { char c[3]; }; struct big { long a[3]; int b; }; struct fl { float f; double d; };\n'
+CORPUS_CALLSTRUCT = [
+    ('call-struct-arg', 'f', 'long f(struct p *a, int b) { struct q s = {{1, 2, 3}}; s.c[1] = (char)b; return take(s, *a, b) + a->x; }', [('struct p *', 'a', 1), ('int', 'b')], 'long', '',
+     'long take(struct q, struct p, int);', [dict(name='take', ret='long', params=['struct q', 'struct p', 'int'], body='rv_ += a0.c[0] + a0.c[1] * 3 + a0.c[2] * 5 + a1.x + a1.y + a2;')]),
+    ('call-struct-ret', 'f', 'long f(struct p *a, int b) { struct p t = mk(*a, b); *a = mk(t, 1); return t.x + t.y; }', [('struct p *', 'a', 1), ('int', 'b')], 'long',
+     'r_a[0].x > -100000 && r_a[0].x < 100000 && in_b > -100000 && in_b < 100000 && r_a[0].y > -100000 && r_a[0].y < 100000',
+     'struct p mk(struct p, int);', [dict(name='mk', ret='struct p', params=['struct p', 'int'], ret_init='r_.x = a0.x + a1; r_.z = a0.z; r_.y = a0.y * 2 + (long)(rv_ & 0xff);')]),
+    ('call-struct-big', 'f', 'int f(struct big *a, struct fl *g) { struct big t = *a; t.b++; struct fl r = conv(t, *g); g->f = r.f; return t.b + (r.d > 1.0); }', [('struct big *', 'a', 1), ('struct fl *', 'g', 1)], 'int',
+     'r_a[0].b > -1000 && r_a[0].b < 1000 && r_g[0].d == r_g[0].d && r_g[0].f == r_g[0].f',
+     'struct fl conv(struct big, struct fl);', [dict(name='conv', ret='struct fl', params=['struct big', 'struct fl'], ret_init='r_.f = a1.f; r_.d = a1.d + (double)(a0.b & 3);')]),
 ]
 STRUCT_PRELUDE = 'struct s { char c; int x : 5; unsigned y : 11; long l; };\n'
 CORPUS_STRUCT = [
@@ -105,6 +118,10 @@ def corpus_instances(tier, fam='tv'):
     for nm, fn, src, params, ret, pre, protos, callees in CORPUS_CALLS:
         prelude, disp = tvlib.callee_code(callees)
         L.append(tvlib.tv_inst('%s.%s' % (fam, nm), fn, src, params, ret, fam, pre=pre, callees=disp, prelude=prelude, toksrc=protos + '\n' + src, timeout=600 if tier == 'quick' else 3600))
+    for nm, fn, src, params, ret, pre, protos, callees in CORPUS_CALLSTRUCT:
+        prelude, disp = tvlib.callee_code(callees)
+        L.append(tvlib.tv_inst('%s.%s' % (fam, nm), fn, src, params, ret, fam, pre=pre, callees=disp, prelude=CALLSTRUCT_PRELUDE + prelude,
+                               toksrc=CALLSTRUCT_PRELUDE + protos + '\n' + src, timeout=600 if tier == 'quick' else 3600))
     for nm, fn, src, params, ret, pre in CORPUS_AUTOINIT:
         L.append(tvlib.tv_inst('%s.%s' % (fam, nm), fn, AUTOINIT_PRELUDE + src, params, ret, fam, pre=pre, timeout=600 if tier == 'quick' else 3600))
     for nm, fn, src, params, ret, pre in CORPUS_STRUCT:
